@@ -6,6 +6,9 @@ set -u
 . "$(dirname "$0")/env.sh"
 R="${1:-/repo}"
 OUT=$(mktemp /tmp/verif-baseline.XXXXXX.json)
+# schema/gen/go's tests build into $TMPDIR/test-go-ipld-prime-gengo: a private TMPDIR keeps concurrent suite runs apart
+export TMPDIR=$(mktemp -d /tmp/verif-baseline-tmp.XXXXXX)
+trap 'rm -rf "$TMPDIR"' EXIT
 (cd "$R" && go test -mod=mod -json -vet=off -count=1 -timeout 25m ./... > "$OUT" 2>/dev/null)
 python3 - "$OUT" <<'PY'
 import json,sys
